@@ -145,7 +145,12 @@ func genOp(r *rand.Rand, l model.Layout, now int64, o histOpts) Op {
 			m := 1 + r.Intn(3)
 			for j := 0; j < m; j++ {
 				var t int64
-				switch r.Intn(4) {
+				switch r.Intn(5) {
+				case 4:
+					t = now - retT - 1
+					if now > 1<<31+1000 {
+						t = 1 + r.Int63n(now-1<<31-1) // ancient: more than 2^31 s before the clock
+					}
 				case 0:
 					t = now - retT // exactly the boundary: too old
 				case 1:
